@@ -30,6 +30,9 @@ class SimDevice:
         """bytes the daemon wrote; returns bytes to emit back"""
         out = b""
         self.last_conn = conn
+        if self.mode == "iacsplit":
+            import re as _re
+            data = _re.sub(rb"\xff[\xfb-\xfe].", b"", data)          # the daemon's WONT / DONT answers to our option requests
         self.linebuf += data
         while b"\n" in self.linebuf:
             line, self.linebuf = self.linebuf.split(b"\n", 1)
@@ -37,6 +40,15 @@ class SimDevice:
             if conn in self.owing:
                 self.interleaves.append((conn, self.owing[conn], text))
             ans = self.handle(conn, text)
+            if self.mode == "iacsplit" and len(ans) >= 2:
+                # a telnet-chatty device: a telnet sequence is put somewhere into the answer and the answer is CUT inside that sequence; the
+                # rest follows two rounds later (the other devices' answers are read in between)
+                seq = self.rng.choice([b"\xff\xf1", b"\xff\xfd\x01", b"\xff\xfb\x03", b"\xff\xfe\x18"])     # IAC NOP / DO echo / WILL sga / DONT ttype
+                pos = self.rng.randint(0, len(ans) - 1)
+                cut = self.rng.randint(1, len(seq) - 1)
+                first, rest = ans[:pos] + seq[:cut], seq[cut:] + ans[pos:]
+                self.hold.append([2, conn, rest]); self.owing[conn] = text.split(" ", 1)[0]
+                ans = first
             if self.mode == "slowpong" and text.split(" ", 1)[0] == "PING" and ans:
                 self.hold.append([3, conn, ans]); self.owing[conn] = "PING"
             else:
@@ -53,6 +65,22 @@ class SimDevice:
         return due
 
     def handle(self, conn, line):
+        """mode "late": the answer to the first query is held back and sent, on the same connection, in front of the answer to the NEXT line
+        (a device that answers later than the daemon's time-out); it is recorded as <VERB>-LATE: a report that belongs to the earlier query"""
+        pre = b""
+        late = getattr(self, "late", None)
+        if late and late[0] == conn and not line.startswith("LOGIN"):
+            pre, self.late = late[1], None
+        if self.mode == "late" and line.split(" ", 1)[0].startswith("STATUS"):
+            self.mode = "healthy"
+            data = self._handle(conn, line)
+            c, v, sent = self.answered.pop()
+            self.answered.append((c, v + "-LATE", sent))
+            self.late = (conn, data)
+            return pre
+        return pre + self._handle(conn, line)
+
+    def _handle(self, conn, line):
         w = line.split(" ", 1)
         verb, arg = w[0], (w[1] if len(w) > 1 else None)
         if self.mode == "silent":
@@ -64,6 +92,10 @@ class SimDevice:
         if self.mode == "fftail":          # line noise whose last byte in every read is 0xFF (a telnet IAC with nothing behind it)
             self.log.append((conn, verb, self._targets(verb, arg), "fftail"))
             return bytes(self.rng.randrange(1, 250) for _ in range(self.rng.randint(0, 12))) + b"\xff"
+        if verb == "LOGIN" and self.mode == "badlogin":
+            # the first login of the device's life is answered with something else (of the same length as the prompt, one less, one more ...)
+            self.log.append((conn, verb, [], "badlogin")); self.mode = "healthy"
+            return self.rng.choice([b"locke\n", b"locked\n", b"busy\n", b"nope!\n", b"x\n", b"try later..\n"])
         if verb == "LOGIN":
             return b"ready\n"
         if self.mode == "junkclose":       # says something no script expects and hangs up, once (bytes left unconsumed in the daemon's buffer)
